@@ -1458,7 +1458,18 @@ class ComponentSpecification(experiment.model.interface.InternalRepresentationAt
                 pattern = re.compile(r'\b' + re.escape(original_reference) + r'\b')
                 arguments = re.sub(pattern, replacement, arguments)
 
-            blueprint_name = self.identification.componentName.rstrip('0123456789')
+            # VV: Replicas are called "<blueprint name><replica index>", but the name of a component which is not
+            #     a replica may end with digits too: prefer the longest name that the unreplicated FlowIR knows about
+            blueprint_name = self.identification.componentName
+            known_ids = self.workflowGraph.configuration._unreplicated.get_component_identifiers(False)
+            if (self.identification.stageIndex, blueprint_name) not in known_ids:
+                stripped = blueprint_name.rstrip('0123456789')
+                for end in range(len(blueprint_name) - 1, len(stripped) - 1, -1):
+                    if (self.identification.stageIndex, blueprint_name[:end]) in known_ids:
+                        blueprint_name = blueprint_name[:end]
+                        break
+                else:
+                    blueprint_name = stripped
 
             # VV: We need to fetch the executables before they were resolved. We don't want to have to resolve
             #     the executables of archived experiments before generating the memoization hashes of the components
